@@ -310,7 +310,7 @@ EXTRA = {
     "C13": "(SIMPLEX-EQUIV shared) the standard form is exercised end to end by the simplex family. (STD-EQUIV addition) range ends that differ from 0 or from each other by less than the crate's comparison tolerance (4e-6, [1, 1.000004]) are bounds all the same: their rows are there.",
     "C14": "(SIMPLEX-EQUIV) see C05; all clauses above recognise source text of the pivot / ratio test / canonical start and are undecided when it is written differently. Two-phase starts whose first phase meets a structural row with the smallest ratio before an artificial one. Phase one ending with an artificial variable basic at level zero in a later row whose leaving column occurs in an earlier row.",
     "C15": "(BRIDGE-EQUIV) 8 option sets (none, gap, limit, both, zero / negative / NaN gap) x 3 solver statuses: mip_gap and time_limit reach SolveOptions unchanged, nothing else differs from SolveOptions::default() (microlp 0.5), Optimal -> Optimal, Feasible -> Feasible, Interrupted -> Err(LimitReached) whatever the options. The status scripts run on a maximised and a minimised model with the solver's proven bound away from the incumbent (Stats::best_bound modelled): Feasible stays Feasible. The builder's MicroLP solver: with_mip_gap / with_time_limit in either order, repeated, alone -- every option set reaches SolveOptions. (BRIDGE-EQUIV addition) gaps of every magnitude (5e-324, 1e-9, 1e-6, 1e-4, 0.75, 1, 2.5, infinity, -0.0) reach the solver as given: no floor, ceiling or rounding.",
-    "C16": "(FRONT-DOOR-EQUIV addition) constants written in the text or supplied through the API: the type checker accepts and the transformer compiles the same model when a text constant is defined from an API constant. (FRONT-DOOR-EQUIV addition) objectives without variables (a bare number, a constant expression, x - x) keep direction and constant through the builder as in the text. Builder call orders now include rows added one by one followed by two with_all batches, and an objective replaced by a later call (satisfy then the opposite sense then the model's objective; maximize then satisfy): the last call is the objective.",
+    "C16": "(FRONT-DOOR-EQUIV addition) constants written in the text or supplied through the API: the type checker accepts and the transformer compiles the same model when a text constant is defined from an API constant. (FRONT-DOOR-EQUIV addition) objectives without variables (a bare number, a constant expression, x - x) keep direction and constant through the builder as in the text. Builder call orders now include rows added one by one followed by two with_all batches, and an objective replaced by a later call (satisfy then the opposite sense then the model's objective; maximize then satisfy): the last call is the objective. The comparison includes the objective constant and coefficients as stored (LinearModel::objective_offset / objective evaluated from HIR), which the printed text of a feasibility model does not show.",
     "C17": "(LP-ROUND-TRIP addition) coefficients, right-hand sides, offsets and bounds up to 1e30 and at 2^63. Models assembled through the public API (usage marks all zero) export like compiled ones. User-written row names that are the labels the exporter generates for the unnamed rows next to them (c2 next to an unnamed second row, c2_1 as well, chains): the exported labels stay unique.",
     "C19": "(TYPE-SOUND addition) elements of union / intersection / difference / zip / enumerate results used in the kind the checker gives them. (TYPE-SOUND addition, scoping) 23 programs that use a name where it is not (yet) bound: an iterator / quantifier / domain quantifier that mentions the name it binds or a later one, a block name used after the block or in a sibling, constants defined from later constants or from iteration names.",
     "C20": "(GOODLP-BRIDGE-EQUIV) solve_real_lp_problem_clarabel -> solve_with_good_lp -> collect_good_lp_duals evaluated against a recording model of good_lp (variables, expressions built with good_lp's overloaded operators, constraints, direction, scripted values / duals / statuses) on 4 models: every named row's shadow price is the dual held for that row's own constraint reference, unchanged (duals of both signs, tiny ones, binding rows with right-hand side 0); unnamed rows are left out; the objective keeps the model's direction and sign; rows keep their expression on the left with the matching comparison. (GOODLP-BRIDGE-EQUIV addition) rows far from unit scale (coefficients 5000 / 1e6 / 5e-4): a row may be handed over at another scale k (relation turned round for k < 0), the reported price must then be k times the solver's dual. Row names with leading underscores, a `$`, a generated-looking suffix are names like any other: their prices are reported.",
